@@ -112,6 +112,8 @@ struct tbl_rec {                             /* written by the other stubs      
   /* meta */
   int bn_calls; char *bn_buf; int eq_calls, eq_ret; const uint8_t *mseek_data; size_t mseek_n;
   int fc_calls; const struct ldb_bloom_s *fc_policy; const uint8_t *fc_data; size_t fc_n;
+  /* two-level iterator */
+  int tw_calls; const ldb_iter_t *tw_index; ldb_blockfunc_f tw_fn; void *tw_arg; const ldb_readopt_t *tw_opt;
 } R;
 
 static unsigned long tick(void) { __CPROVER_assume(R.clock < (1ul << 40)); return ++R.clock; }
@@ -177,9 +179,10 @@ void ldb_iter_destroy(ldb_iter_t *iter) {
 void ldb_iter_register_cleanup(ldb_iter_t *iter, ldb_cleanup_f func, void *arg1, void *arg2) {
   B.cl_calls++; B.cl_iter = iter; B.cl_func = func; B.cl_a1 = arg1; B.cl_a2 = arg2;
 }
+ldb_iter_t g_two_iter;
 ldb_iter_t *ldb_twoiter_create(ldb_iter_t *index_iter, ldb_blockfunc_f block_function, void *arg, const ldb_readopt_t *options) {
-  __CPROVER_assert(0, "twoiter_create: not part of these units");
-  return index_iter;
+  R.tw_calls++; R.tw_index = index_iter; R.tw_fn = block_function; R.tw_arg = arg; R.tw_opt = options;
+  return &g_two_iter;
 }
 
 /* ------------------------------------------------------------ filter reader */
@@ -489,6 +492,21 @@ __CPROVER_ensures(__CPROVER_return_value == ((IN.valid[IT_INDEX] != 0 && spec_ha
 __CPROVER_ensures(B.rb_calls == __CPROVER_old(B.rb_calls) && B.lk_calls == __CPROVER_old(B.lk_calls) && !B.created[IT_DATA] == !__CPROVER_old(B.created[IT_DATA]))
 ;
 
+/* =============================================================== tbl.iterate
+ * Table::NewIterator: two-level iterator = (iterator over the index block, block reader bound to this table).
+ */
+ldb_iter_t *c_tableiter_create(const ldb_table_t *table, const ldb_readopt_t *options)
+__CPROVER_requires(table == IN.table && __CPROVER_r_ok(table, sizeof(*table)) && table->index_block == &g_blk_index)
+__CPROVER_requires(!B.created[IT_INDEX] && R.tw_calls == 0)
+__CPROVER_assigns(R, B)
+__CPROVER_ensures(__CPROVER_return_value == &g_two_iter && R.tw_calls == 1)
+__CPROVER_ensures(B.created[IT_INDEX] == 1 && B.block[IT_INDEX] == table->index_block && B.cmp[IT_INDEX] == table->options.comparator && R.tw_index == &GI[IT_INDEX])
+__CPROVER_ensures(R.tw_fn == ldb_table_blockreader && R.tw_arg == (void *)table && R.tw_opt == options)
+/* nothing is read or positioned yet; the index iterator now belongs to the two-level iterator */
+__CPROVER_ensures(R.seeks[IT_INDEX] == __CPROVER_old(R.seeks[IT_INDEX]) && R.destroyed[IT_INDEX] == __CPROVER_old(R.destroyed[IT_INDEX]) && B.rb_calls == __CPROVER_old(B.rb_calls) &&
+                  B.lk_calls == __CPROVER_old(B.lk_calls) && !B.created[IT_DATA] == !__CPROVER_old(B.created[IT_DATA]))
+;
+
 /* ------------------------------------------------------------- harnesses */
 static void init_records(void) {
   int i;
@@ -499,7 +517,7 @@ static void init_records(void) {
   B.empty_status = LDB_OK; R.clock = 0; R.t_saver = 0;
   R.fm_calls = 0; R.fm_ret = 0; R.sv_calls = 0; B.rb_calls = 0; B.bc_calls = 0; B.bc_of[0] = B.bc_of[1] = B.bc_of[2] = 0; R.bd_calls = 0;
   B.lk_calls = 0; B.lk_n = 0; B.ins_calls = 0; B.ins_n = 0; R.id_calls = 0; B.cl_calls = 0; B.cl_func = NULL; R.pr_calls = 0; R.pr_rc = 0; R.pr_size = 0; R.pr_data = NULL;
-  R.bn_calls = 0; R.eq_calls = 0; R.eq_ret = 0; R.fc_calls = 0; R.mseek_data = NULL; R.mseek_n = 0;
+  R.tw_calls = 0; R.bn_calls = 0; R.eq_calls = 0; R.eq_ret = 0; R.fc_calls = 0; R.mseek_data = NULL; R.mseek_n = 0;
   for (i = 0; i < 3; i++) { B.rb[i].rc = 0; B.rb[i].cachable = 0; B.rb[i].heap = 0; B.rb[i].verify = 0; B.rb[i].fill = 0; B.rb[i].off = 0; B.rb[i].size = 0; B.rb[i].opt = NULL; }
   g_ro_default.verify_checksums = 0; g_ro_default.fill_cache = 1; g_ro_default.snapshot = NULL;
   ldb_readopt_default = &g_ro_default;
@@ -591,5 +609,16 @@ void h_approx(void) {
   IN.key = &k; IN.ixval = iv; IN.ixval_n = in_ivn; IN.vp[IT_INDEX] = iv; IN.vn[IT_INDEX] = in_ivn;
   r = ldb_table_approximate_offset(t, &k);
   (void)r;
+  CANARY();
+}
+
+void h_tableiter(void) {
+  ldb_table_t *t; ldb_readopt_t ro;
+  init_records();
+  t = any_table();
+  any_iter_inputs();
+  ro.verify_checksums = nondet_int(); ro.fill_cache = nondet_int(); ro.snapshot = NULL;
+  IN.ropt = &ro;
+  (void)ldb_tableiter_create(t, &ro);
   CANARY();
 }
